@@ -1,6 +1,7 @@
 /-
-C04 — the direct token mapping of `CSI > flags u` agrees with the lexer for EVERY value of the flags
-(round 4).  `Props.C04.kittyPush_lexes` checks the values 0..31 by kernel evaluation; the application can
+C04 — the direct token mappings of the three run-time writes agree with the lexer for EVERY value
+(round 4): `CSI > flags u` and `CSI n SP q` for every natural number, `OSC 176 ; id ST` for every id
+without BEL / ESC.  `Props.C04.kittyPush_lexes` checks the values 0..31 by kernel evaluation; the application can
 pass any `Options.CSIuBitMask` (an `int`), so the statement is wanted for all natural numbers.
 -/
 import VaxisModel.Lemmas.C04Lex
@@ -44,6 +45,68 @@ theorem kittyPush_lexes_all (n : Nat) :
   rw [← String.toList_inj, hexOfBytes_toList _ (by simp), kittyPushRaw, String.toList_ofList, bytesOf_toString,
     hexChars_append, hexChars_append]
   rfl
+
+private theorem fmt176_toList : "\x1b]176;%s\x1b\\".toList = [Char.ofNat 27, ']', '1', '7', '6', ';', '%', 's', Char.ofNat 27, '\\'] := by decide
+
+private theorem wBytes_appId (id : String) :
+    wBytes { v := fun _ => false, appId := id } (.tparm "setAppID" "\x1b]176;%s\x1b\\" ["vx.appIDLast"]) =
+      String.ofList ([Char.ofNat 27, ']', '1', '7', '6', ';'] ++ id.toList ++ [Char.ofNat 27, '\\']) := by
+  have ha : argVal { v := fun _ => false, appId := id } "vx.appIDLast" = id := by simp [argVal]
+  simp only [wBytes, List.map_cons, List.map_nil, ha, fmt176_toList]
+  simp [sprintf]
+
+/-- **`OSC 176 ; id ST` for every id** whose UTF-8 encoding contains neither BEL nor ESC (i.e. every string without
+    these two control characters — any other text, any length, `;` and non-ASCII included): what
+    `tparm(setAppID, id)` prints lexes to exactly the one token the lifecycle model maps the write to. -/
+theorem appIdRestore_lexes_all (id : String) (h : ∀ b ∈ bytesOf id, b ≠ 7 ∧ b ≠ 27) :
+    toksOf (wBytes { v := fun _ => false, appId := id } (.tparm "setAppID" "\x1b]176;%s\x1b\\" ["vx.appIDLast"])) =
+      inst { v := fun _ => false, appId := id } default default .appIdRestore := by
+  rw [wBytes_appId]
+  show tokens [[32]] (bytesOf (String.ofList ([Char.ofNat 27, ']', '1', '7', '6', ';'] ++ id.toList ++ [Char.ofNat 27, '\\']))) = [.other (appIdSetRaw id)]
+  rw [bytesOf_ofList, bytesOfChars_append, bytesOfChars_append, bytesOfChars_toList,
+    bytesOfChars_ascii [Char.ofNat 27, ']', '1', '7', '6', ';'] (by decide), bytesOfChars_ascii [Char.ofNat 27, '\\'] (by decide)]
+  show tokens [[32]] ([27, 93, 49, 55, 54, 59] ++ bytesOf id ++ [27, 92]) = _
+  rw [lex_osc176 _ h]
+  congr 2
+  rw [← String.toList_inj, hexOfBytes_toList _ (by simp), appIdSetRaw, String.toList_ofList, hexChars_append]
+  rfl
+
+private theorem fmtStyle_toList : "\x1b[%d q".toList = [Char.ofNat 27, '[', '%', 'd', ' ', 'q'] := by decide
+
+private theorem wBytes_style (n : Nat) :
+    wBytes { v := fun _ => false, userCursorStyle := n } (.tparm "cursorStyleSet" "\x1b[%d q" ["int(vx.userCursorStyle)"]) =
+      String.ofList ([Char.ofNat 27, '['] ++ Nat.toDigits 10 n ++ [' ', 'q']) := by
+  have ha : argVal { v := fun _ => false, userCursorStyle := n } "int(vx.userCursorStyle)" = toString n := by simp [argVal]
+  simp only [wBytes, List.map_cons, List.map_nil, ha, fmtStyle_toList]
+  rw [toString_nat]
+  simp [sprintf, String.toList_ofList]
+
+/-- **`CSI n SP q` for every `n`**: what `tparm(cursorStyleSet, n)` prints lexes to `cursorStyle n` — the decimal
+    parameter parsed by the lexer is `n` itself (`Nat.ofDigitChars_toDigits`). -/
+theorem userStyle_lexes_all (n : Nat) :
+    toksOf (wBytes { v := fun _ => false, userCursorStyle := n } (.tparm "cursorStyleSet" "\x1b[%d q" ["int(vx.userCursorStyle)"])) =
+      inst { v := fun _ => false, userCursorStyle := n } default default .userStyle := by
+  rw [wBytes_style]
+  show tokens [[32]] (bytesOf (String.ofList ([Char.ofNat 27, '['] ++ Nat.toDigits 10 n ++ [' ', 'q']))) = [.cursorStyle n]
+  have hascii : ∀ c ∈ [Char.ofNat 27, '['] ++ Nat.toDigits 10 n ++ [' ', 'q'], c.toNat < 128 := by
+    intro c hc
+    simp only [List.mem_append, List.mem_cons, List.mem_nil_iff, or_false] at hc
+    rcases hc with ((rfl | rfl) | hc) | (rfl | rfl)
+    · decide
+    · decide
+    · exact digits_ascii n c hc
+    · decide
+    · decide
+  rw [bytesOf_ascii _ hascii]
+  have hb : ([Char.ofNat 27, '['] ++ Nat.toDigits 10 n ++ [' ', 'q']).map Char.toNat = [27, 91] ++ digitBytes n ++ [32, 113] := by
+    simp only [List.map_append, List.map_cons, List.map_nil, digitBytes]
+    rfl
+  rw [hb, lex_csi_sp_q]
+
+-- the statements are not vacuous and not about small values only
+example : toksOf (wBytes { v := fun _ => false, appId := "org.example.App;é x" } (.tparm "setAppID" "\x1b]176;%s\x1b\\" ["vx.appIDLast"])) =
+    inst { v := fun _ => false, appId := "org.example.App;é x" } default default .appIdRestore :=
+  appIdRestore_lexes_all _ (by decide +kernel)
 
 -- the statement is not vacuous and not about small numbers only
 example : toksOf (wBytes { v := fun _ => false, kittyFlags := 4095 } (.tparm "kittyKBEnable" "\x1b[>%du" ["vx.kittyFlags"])) =
